@@ -4,6 +4,7 @@
    the usual local collision-freeness of MD5, which is a premise, never an axiom, here). *)
 From Gopar Require Import Model.Base Model.CRC Model.GoPath Model.FS Model.Par2 Proofs.Par2Facts Proofs.Par2Faults Proofs.Par2CreatePaths
      Proofs.CreateContain Proofs.Par2Ignore Proofs.Par2LayoutOps.
+From Gopar Require Model.Par1 Proofs.CreateContain Proofs.Par1RoundTrip.
 Open Scope N_scope.
 
 (* Verify (and the whole loading phase of Repair) leaves the file map unchanged - for EVERY archive
@@ -140,3 +141,43 @@ Theorem C02_file_below_subdirectory_unlisted : forall ix x y,
   rec_pattern ix ((strip_ext ix ++ [DOT]) ++ x ++ SLASH :: y) = false.
 Proof. exact rec_pattern_below_subdirectory. Qed.
 Print Assumptions C02_file_below_subdirectory_unlisted.
+
+(* CREATE (PAR1) NEVER MODIFIES ITS INPUT FILES: for EVERY initial file system, index path, input list, volume count
+   and EVERY fault schedule (failed and torn writes included), whatever Create returns, every input path keeps its
+   content.  No premise on the names: an input whose path is (after filepath.Clean) the index path or one of the
+   volume paths about to be written makes Create return an error after the reads and before the first write. *)
+Theorem C02_par1_create_never_modifies_inputs : forall md5 parPath files nvol fs sched f,
+  In f files ->
+  fs_lookup (io_fs (snd (Par1.par1_create md5 parPath files nvol (io_init fs sched)))) f = fs_lookup fs f.
+Proof. exact CreateContain.par1_create_never_modifies_inputs. Qed.
+Print Assumptions C02_par1_create_never_modifies_inputs.
+
+(* no write call of Create - completed, failed or torn - targets an input (compared after filepath.Clean) *)
+Theorem C02_par1_create_writes_miss_inputs : forall md5 parPath files nvol fs sched pth d ok,
+  In (EvWrite pth d ok) (io_trace (snd (Par1.par1_create md5 parPath files nvol (io_init fs sched)))) ->
+  forall f, In f files -> str_eqb (clean f) (clean pth) = false.
+Proof. exact CreateContain.par1_create_writes_miss_inputs. Qed.
+Print Assumptions C02_par1_create_writes_miss_inputs.
+
+(* if Create returns success no input is an output: neither the index path nor one of the volume paths written *)
+Theorem C02_par1_create_ok_inputs_not_outputs : forall md5 parPath files nvol st st',
+  Par1.par1_create md5 parPath files nvol st = (Ok tt, st') ->
+  let nv := if (nvol <=? 0)%Z then 3%nat else Z.to_nat nvol in
+  Forall (fun f => f <> parPath /\ forall k, (1 <= k <= nv)%nat -> f <> Par1.volume_path parPath (N.of_nat k)) files.
+Proof. exact Par1RoundTrip.par1_create_ok_inputs_not_outputs. Qed.
+Print Assumptions C02_par1_create_ok_inputs_not_outputs.
+
+(* the finding, by evaluation: `par c o.par a o.p01` (spelled ./o.p01) and `par c o.par a o.par` are refused with the
+   error class of a plain error, after the two reads, nothing written; a volume name beyond the count is an input *)
+From Coq Require Import String.
+Local Open Scope string_scope.
+Example C02_par1_create_refuses_own_output :
+  let fs := [(bs "/w/a", [1; 2; 3]); (bs "/w/o.par", [9]); (bs "/w/o.p01", [8]); (bs "/w/./o.p01", [8]); (bs "/w/o.p03", [7])] in
+  let r1 := Par1.par1_create toy_md5 (bs "/w/o.par") [bs "/w/a"; bs "/w/./o.p01"] 2%Z (io_init fs []) in
+  let r2 := Par1.par1_create toy_md5 (bs "/w/o.par") [bs "/w/a"; bs "/w/o.par"] 2%Z (io_init fs []) in
+  let r3 := Par1.par1_create toy_md5 (bs "/w/o.par") [bs "/w/a"; bs "/w/o.p03"] 2%Z (io_init fs []) in
+  fst r1 = Err EOther /\ io_fs (snd r1) = fs /\ written_paths (io_trace (snd r1)) = [] /\ List.length (io_trace (snd r1)) = 2%nat /\
+  fst r2 = Err EOther /\ io_fs (snd r2) = fs /\ written_paths (io_trace (snd r2)) = [] /\
+  fst r3 = Ok tt /\ fs_lookup (io_fs (snd r3)) (bs "/w/o.p03") = Some [7].
+Proof. exact CreateContain.par1_create_refuses_own_output. Qed.
+Print Assumptions C02_par1_create_refuses_own_output.
